@@ -120,7 +120,9 @@ def fixed_charnock():
 def janssen_case(draw):
     steep = draw(st.sampled_from([(0.02, 0.08), (0.02, 0.08), None]))
     c = draw(W.sea_case(max_points=3, kinds=("jonswap", "jonswap", "pm", "swell_sea"), max_nf=24, steep=steep))
-    c.update({"input_type": draw(st.sampled_from(["u10", "u10", "friction_velocity"])),
+    c.update({"input_type": draw(st.sampled_from(["u10", "u10", "friction_velocity", "ustar", "ustar"])),
+              # friction velocities for the two friction-velocity labels, 0.05 .. 2 m/s
+              "ustar_values": [draw(log_uniform(0.05, 2.0)) for _ in c["points"]],
               "gen_params": {k: draw(fl(0.5, 1.5)) for k in GEN_DEFAULTS} if draw(st.integers(0, 2)) == 0 else {},
               "viscous": draw(st.sampled_from([0.0, 0.0, 0.1])),
               "aligned": draw(st.booleans()),
@@ -149,7 +151,7 @@ def run_janssen(c):
     spec = W.build(c, E)
     it = c["input_type"]
     wdir_v = [p.get("theta", 0.0) if c["aligned"] else w for p, w in zip(c["points"], c["wdir"])]
-    speed_v = list(c["u10"]) if it == "u10" else [u / 28.0 for u in c["u10"]]
+    speed_v = list(c["u10"]) if it == "u10" else list(c.get("ustar_values") or [u / 28.0 for u in c["u10"]])
     int_winds = bool(c.get("integer_winds")) and it == "u10"
     if int_winds:
         speed_v = [float(max(1, round(u))) for u in speed_v]
@@ -198,15 +200,27 @@ def run_janssen(c):
         ss = W.build(c, Es, [c["depth"][i]] * NSCAN)
         sp = W.da([speed_v[i]] * NSCAN, ss)
         wd = W.da([wdir_v[i]] * NSCAN, ss)
+        ncut = NSCAN
         try:
             tau = np.asarray(gen.stress(ss, sp, wd, roughness_length=W.da(np.exp(ells), ss),
                                         wind_speed_input_type=it)["stress"].values, dtype=float)
         except ValueError:
-            # the harness' own scan left the range where the tail-stress closure can be evaluated
-            classes.append("scan_failed")
-            continue
+            # the tail-stress closure often cannot be evaluated for roughness lengths above e^-1.5 = 0.22 m (its own root
+            # finder does not converge there): scan only up to that length; if even that fails the point is skipped
+            ncut = int((ells <= -1.5).sum())
+            try:
+                sc_ = W.build(c, Es[:ncut], [c["depth"][i]] * ncut)
+                tau_lo = np.asarray(gen.stress(sc_, W.da([speed_v[i]] * ncut, sc_), W.da([wdir_v[i]] * ncut, sc_),
+                                               roughness_length=W.da(np.exp(ells[:ncut]), sc_),
+                                               wind_speed_input_type=it)["stress"].values, dtype=float)
+            except ValueError:
+                classes.append("scan_failed")
+                continue
+            tau = np.concatenate([tau_lo, np.full(NSCAN - ncut, tau_lo[-1])])
+            classes.append("scan_limited_to_z0_below_0.22m")
         ust = kappa * speed_v[i] / np.log(elev / np.exp(ells)) if it == "u10" else np.full(NSCAN, speed_v[i])
         F = rho * ust ** 2 - tau
+        F[ncut:] = F[ncut - 1]                 # no sign change is counted in the part that could not be evaluated
         if not np.isfinite(F).all():
             classes.append("scan_not_finite")
             continue
@@ -228,7 +242,8 @@ def run_janssen(c):
                         f"stress={t1!r} relative residual={abs(res) / (rho * u1 ** 2):.3e}")
                 # and the returned root lies in the bracket found by the scan
                 j = int(np.nonzero(np.sign(F[1:]) != np.sign(F[:-1]))[0][0])
-                require(ells[j] - 1e-3 <= math.log(zi) <= ells[j + 1] + 1e-3, "janssen_roughness_is_the_scanned_root",
+                require(ncut < NSCAN and math.log(zi) > ells[ncut - 1] or
+                        ells[j] - 1e-3 <= math.log(zi) <= ells[j + 1] + 1e-3, "janssen_roughness_is_the_scanned_root",
                         f"point {i}: ln z0={math.log(zi)} bracket=({ells[j]},{ells[j + 1]})")
                 nontriv = True
         else:
@@ -249,7 +264,7 @@ def finalize(rec):
 SUBCHECKS = [
     SubCheck("charnock", lambda tier: charnock_case(), run_charnock, {"quick": 300, "thorough": 2500},
              fixed=fixed_charnock),
-    SubCheck("janssen", lambda tier: janssen_case(), run_janssen, {"quick": 40, "thorough": 300}),
+    SubCheck("janssen", lambda tier: janssen_case(), run_janssen, {"quick": 60, "thorough": 400}),
 ]
 
 
